@@ -782,11 +782,10 @@ func round(x float64, prec int) float64 {
 			x = math.Ceil(intermed)
 		}
 	} else {
-		if x < 0 {
-			x = math.Ceil(intermed - 0.5)
-		} else {
-			x = math.Floor(intermed + 0.5)
-		}
+		// Not a tie, so rounding to nearest is unambiguous.
+		// (Adding 0.5 and truncating is not: the sum is itself
+		// rounded, which takes 0.49999999999999994 up to 1.)
+		x = math.Round(intermed)
 	}
 
 	if x == 0 {
